@@ -144,7 +144,7 @@ def rule_r2(rep, idx):
             closure.add(g.id)
             for c in cast.calls_in(g.body):
                 kind, name, did, obj = callee_of(c)
-                o = cast.strip_noncast(obj) if obj is not None else None
+                o = cast.strip(obj) if obj is not None else None
                 h = idx.func_by_id.get(did) if did else None
                 if h is not None and o is not None and o['kind'] == 'CXXThisExpr':
                     todo.append(h if h.body is not None else getattr(h, 'defn', h))
@@ -174,6 +174,57 @@ def rule_r2(rep, idx):
         throws = [x for x in walk(f.body) if x['kind'] == 'CXXThrowExpr']
         rep.add('R2c', '%s::%s:no-throw-expression' % (CLS, nm), not throws, pos(f.node) + ' ' + f.qname,
                 'throw at %s' % pos(throws[0]) if throws else 'no throw expression', nontrivial=False)
+    # calls that can throw (checked element access, string -> number conversions) inside the trace functions make a traced run end
+    # where the untraced run goes on
+    MAY_THROW = {'at', 'stoi', 'stol', 'stoul', 'stoull', 'substr', 'value'}
+    for nm in TRACE_FUNCS:
+        f = idx.func(CLS + '::' + nm)
+        todo, seen, hits = [f], set(), []
+        while todo:
+            g = todo.pop()
+            if g.id in seen or g.body is None:
+                continue
+            seen.add(g.id)
+            for c in cast.calls_in(g.body):
+                kind, name, did, obj = callee_of(c)
+                if kind == 'method' and name in MAY_THROW and obj is not None and not idx.func_by_id.get(did):
+                    hits.append('%s() at %s' % (name, pos(c)))
+                h = idx.func_by_id.get(did) if did else None
+                o = cast.strip(obj) if obj is not None else None
+                if h is not None and o is not None and o['kind'] == 'CXXThisExpr':
+                    todo.append(h if h.body is not None else getattr(h, 'defn', h))
+        rep.add('R2c', '%s::%s:no-throwing-library-call' % (CLS, nm), not hits, pos(f.node) + ' ' + f.qname,
+                ('the trace path calls %s, which throws on a value the untraced run handles (e.g. an address outside memory): only the traced '
+                 'run aborts' % ', '.join(hits)) if hits else 'no checked access / conversion that can throw', nontrivial=False)
+    # the symbol lookup reads debugInfo[0]: every call of it must be guarded by a non-empty test of the table
+    lk = idx.func(CLS + '::lookupSymbol')
+    needs_guard = any(x['kind'] == 'CXXOperatorCallExpr' and callee_of(x)[1] == 'operator[]' for x in walk(lk.body)) and not any(
+        callee_of(c)[1] in ('empty', 'size') for c in cast.calls_in(children(lk.body)[0]) if True) if children(lk.body) else False
+    for m_ in idx.record(CLS).methods:
+        if m_.body is None:
+            continue
+        parents = {}
+        for n_ in walk(m_.body):
+            for c_ in children(n_):
+                parents[id(c_)] = n_
+        for c in cast.calls_in(m_.body):
+            if callee_of(c)[1] != 'lookupSymbol' or callee_of(c)[2] != lk.id:
+                continue
+            guarded = False
+            x = c
+            while id(x) in parents:
+                p_ = parents[id(x)]
+                if p_['kind'] == 'IfStmt' and children(p_)[0] is not x and any(
+                        y['kind'] == 'MemberExpr' and y.get('name') == 'debugInfo' for y in walk(children(p_)[0])) and children(p_)[1] is x or (
+                        p_['kind'] == 'IfStmt' and any(y['kind'] == 'MemberExpr' and y.get('name') == 'debugInfo' for y in walk(children(p_)[0]))
+                        and any(z is x for z in walk(children(p_)[1]))):
+                    guarded = True
+                    break
+                x = p_
+            rep.add('R2c', '%s::%s:lookupSymbol-guarded@%s' % (CLS, m_.name, pos(c).split(':')[-1]), guarded or not needs_guard, pos(c) + ' ' + m_.qname,
+                    'called under a test of debugInfo' if guarded else
+                    ('lookupSymbol() indexes debugInfo[0] unconditionally and this call is not under a test that the table is non-empty: on a '
+                     'binary without symbols (plain assembly) the run crashes here' if needs_guard else 'lookupSymbol tests the table itself'))
     hooks = StubTrace()
     for b in range(256):
         if (b >> 4) == 12:
